@@ -276,7 +276,7 @@ def tree_digest(d):
 BLANK = {"e": "", "inflight": False, "convknown": True, "pdig": "none", "iter": 0, "itag": 0, "vtag": -3, "gtag": -3, "htag": -3, "ptag": -3, "step": 0, "k": 0,
          "conv": False, "atend": False, "final": False, "dir": 1, "fin": [], "tmp": [], "cfg": False,
          "exists": False, "quiescent": False, "postmortem": False, "unchanged": True, "killed": False,
-         "req": 0, "route": "", "cfgeq": True, "hidxok": True, "dtypeok": True, "exc": "", "src": 1,
+         "req": -1, "route": "", "cfgeq": True, "hidxok": True, "dtypeok": True, "exc": "", "src": 1,
          "nfreq": 0, "nkeep": 0, "nasync": False, "ndir": 1,
          "wantfreq": 0, "wantkeep": 0, "wantasync": False, "wantdir": 1}
 
@@ -370,7 +370,7 @@ def build_trace(sc: dict, gens: list, ref: Reference):
             elif name == "x_restore_ok":
                 rec["e"] = "restore_ok"
                 rec["inflight"] = pending
-                rec["req"] = ev.get("req") or 0
+                rec["req"] = ev["req"] if ev.get("req") is not None else -1
                 rec["route"] = "restore" if ev.get("config") else "load"
                 rec["cfgeq"] = (norm_config(ev.get("config")) == orig_cfg) if ev.get("config") else True
                 rec["dtypeok"] = ev.get("dtype") == "float64"
@@ -397,7 +397,7 @@ def build_trace(sc: dict, gens: list, ref: Reference):
                     resumed_converged = True
             elif name == "x_restore_failed":
                 rec["e"] = "restore_failed"
-                rec["exc"], rec["req"] = ev["exc"], ev.get("req") or 0
+                rec["exc"], rec["req"] = ev["exc"], (ev["req"] if ev.get("req") is not None else -1)
                 o = op_restore or {}
                 rec["route"] = "restore" if o.get("op") == "restore" else "load"
                 rec["src"] = dirs.get(o.get("dir"), 1)
